@@ -150,6 +150,231 @@ Section Eval.
   Variable binop_impl : callback -> binop -> value -> value -> store -> outcome value * store.
   Variable builtin_impl : callback -> builtin -> list value -> store -> outcome value * store.
 
+  (* ---- pieces of evaluate_ast that iterate over sub-expression lists, generic in the
+     evaluator used for the elements (so that lemmas about them are plain list inductions) ---- *)
+  Section Gen.
+    Variable ev : cfg -> expr -> result.
+
+    (* `.map(evaluate_ast).collect::<Result<Vec<_>,_>>()?` : left to right, first error wins *)
+    Fixpoint evalL (c : cfg) (l : list expr) {struct l} : outcome (list value) * cfg :=
+      match l with
+      | [] => (Ok [], c)
+      | x :: r =>
+          match ev c x with
+          | (Ok v, c1) =>
+              match evalL c1 r with
+              | (Ok vs, c2) => (Ok (v :: vs), c2)
+              | (o, c2) => (o, c2)
+              end
+          | (o, c1) => (cast_fail o, c1)
+          end
+      end.
+    Fixpoint evalCL (c : cfg) (l : list (commented expr)) {struct l}
+      : outcome (list value) * cfg :=
+      match l with
+      | [] => (Ok [], c)
+      | Cm _ x _ :: r =>
+          match ev c x with
+          | (Ok v, c1) =>
+              match evalCL c1 r with
+              | (Ok vs, c2) => (Ok (v :: vs), c2)
+              | (o, c2) => (o, c2)
+              end
+          | (o, c1) => (cast_fail o, c1)
+          end
+      end.
+
+    (* `bindings.insert(ident, val)` after naming a lambda value *)
+    Definition bind_value (c1 : cfg) (x : string) (v : value) : result :=
+      match insert_head (snd c1) x v with
+      | Some fr2 => (Ok v, (name_if_lambda (fst c1) v x, fr2))
+      | None => (Panic, (name_if_lambda (fst c1) v x, snd c1))
+      end.
+    (* do-block statement path: no immutability check (shadowing allowed) *)
+    Definition assign_value (c : cfg) (x : string) (ve : expr) : result :=
+      match ev c ve with
+      | (Ok v, c1) => bind_value c1 x v
+      | (o, c1) => (o, c1)
+      end.
+    (* Expr::Assignment path after the three guards: the value expression may itself have
+       bound the name (`a = [a = 1, 2]`), so the immutability check is repeated after it
+       (repo fix commit; before it the second binding silently replaced the first) *)
+    Definition assign_checked (c : cfg) (x : string) (ve : expr) : result :=
+      match ev c ve with
+      | (Ok v, c1) => if contains (snd c1) x then (Err, c1) else bind_value c1 x v
+      | (o, c1) => (o, c1)
+      end.
+
+    (* Expr::Record *)
+    Fixpoint evalRecL (c : cfg) (acc : list (string * value)) (l : list (commented rentry))
+      {struct l} : result :=
+      match l with
+      | [] => (Ok (VRec acc), c)
+      | Cm _ (REntry k v) _ :: r =>
+          match k with
+          | KStatic key =>
+              match ev c v with
+              | (Ok x, c1) => evalRecL c1 (rec_insert acc key x) r
+              | (o, c1) => (o, c1)
+              end
+          | KDyn ke =>
+              match ev c ke with
+              | (Ok kv, c1) =>
+                  match as_string kv with
+                  | Ok key =>
+                      match ev c1 v with
+                      | (Ok x, c2) => evalRecL c2 (rec_insert acc key x) r
+                      | (o, c2) => (o, c2)
+                      end
+                  | o => (cast_fail o, c1)
+                  end
+              | (o, c1) => (o, c1)
+              end
+          | KShort x =>
+              match lookup (snd c) x with
+              | Some x' => evalRecL c (rec_insert acc x x') r
+              | None => (Err, c)
+              end
+          | KSpread se =>
+              match ev c se with
+              | (Ok sv, c1) => evalRecL c1 (rec_insert_all acc (record_spread_entries sv)) r
+              | (o, c1) => (o, c1)
+              end
+          end
+      end.
+
+    (* evaluate_do_block_expr: a direct Assignment statement of a do-block may shadow *)
+    Definition do_step (c : cfg) (s : expr) : result :=
+      match s with
+      | EAssign x ve => if mem x do_assign_keywords then (Err, c) else assign_value c x ve
+      | _ => ev c s
+      end.
+    (* the statements of a do-block, in order; stops at the first failure *)
+    Fixpoint evalDoL (c : cfg) (l : list (commented expr)) {struct l} : outcome unit * cfg :=
+      match l with
+      | [] => (Ok tt, c)
+      | Cm _ s _ :: r =>
+          match do_step c s with
+          | (Ok _, c1) => evalDoL c1 r
+          | (o, c1) => (cast_fail o, c1)
+          end
+      end.
+  End Gen.
+
+  (* ---- evaluate_ast, for a given FunctionDef::call at the same call_depth ---- *)
+  Section Expr.
+  Variable apply : frames -> callback.
+
+  Fixpoint evalE (c : cfg) (e : expr) {struct e} : result :=
+      match e with
+      | ENum x => (Ok (VNum x), c)
+      | EStr s => (Ok (VStr s), c)
+      | EBool b => (Ok (VBool b), c)
+      | ENull => (Ok VNull, c)
+      | EId x =>
+          if String.eqb x "infinity" || String.eqb x "inf" then (Ok (VNum npinf), c)
+          else if String.eqb x "constants" then (Ok (VRec constants_record), c)
+          else (of_option (lookup (snd c) x), c)
+      | EInRef field =>
+          (match lookup (snd c) "inputs" with
+           | None => Err
+           | Some (VRec r) => Ok (match rec_get r field with Some v => v | None => VNull end)
+           | Some _ => Err
+           end, c)
+      | EBuiltin b => (Ok (VBuiltin b), c)
+      | EList items =>
+          let r := evalCL evalE c items in
+          (omap (fun vs => VList (flatten_spreads vs)) (fst r), snd r)
+      | ERec entries => evalRecL evalE c [] entries
+      | ELam args body =>
+          let vars := free_vars body (map arg_name args) in
+          let scope := capture (snd c) vars [] in
+          let '(v, st') := fresh_lambda (fst c) args body scope in
+          (Ok v, (st', snd c))
+      | EAssign x ve =>
+          if is_builtin_name x then (Err, c)
+          else if mem x assign_keywords then (Err, c)
+          else if contains (snd c) x then (Err, c)
+          else assign_checked evalE c x ve
+      | EOutput inner => evalE c inner
+      | ECond ce te fe =>
+          match evalE c ce with
+          | (Ok cv, c1) =>
+              match as_bool cv with
+              | Ok true => evalE c1 te
+              | Ok false => evalE c1 fe
+              | o => (cast_fail o, c1)
+              end
+          | (o, c1) => (o, c1)
+          end
+      | EDo stmts (Cm _ ret _) =>
+          (* a fresh frame for the block; whatever happened inside, the caller's chain is
+             what it was (Environment::extend creates a child; the parent is never written) *)
+          let r :=
+            match evalDoL evalE (fst c, (FOwned, []) :: snd c) stmts with
+            | (Ok _, c1) => do_step evalE c1 ret
+            | (o, c1) => (cast_fail o, c1)
+            end in
+          (fst r, (fst (snd r), snd c))
+      | ECall fe args =>
+          match evalE c fe with
+          | (Ok fv, c1) =>
+              match evalL evalE c1 args with
+              | (Ok raw, (st2, fr2)) =>
+                  let argv := flatten_spreads raw in
+                  if negb (is_function fv) then (Err, (st2, fr2))
+                  else let '(r, st3) := apply fr2 fv fv argv st2 in (r, (st3, fr2))
+              | (o, c2) => (cast_fail o, c2)
+              end
+          | (o, c1) => (o, c1)
+          end
+      | EAccess ae ie =>
+          match evalE c ae with
+          | (Ok v, c1) =>
+              match evalE c1 ie with
+              | (Ok i, c2) => (access_val v i, c2)
+              | (o, c2) => (o, c2)
+              end
+          | (o, c1) => (o, c1)
+          end
+      | EDot ae field =>
+          match evalE c ae with
+          | (Ok v, c1) => (dot_val v field, c1)
+          | (o, c1) => (o, c1)
+          end
+      | EBin op l r =>
+          match evalE c l with
+          | (Ok lv, c1) =>
+              match evalE c1 r with
+              | (Ok rv, (st2, fr2)) =>
+                  let '(res, st3) := binop_impl (apply fr2) op lv rv st2 in (res, (st3, fr2))
+              | (o, c2) => (o, c2)
+              end
+          | (o, c1) => (o, c1)
+          end
+      | EUn op a =>
+          match evalE c a with
+          | (Ok v, c1) =>
+              (match op with
+               | Negate => omap (fun x => VNum (nneg x)) (as_number v)
+               | Not | Invert => omap (fun b => VBool (negb b)) (as_bool v)
+               end, c1)
+          | (o, c1) => (o, c1)
+          end
+      | EFact a =>
+          match evalE c a with
+          | (Ok v, c1) =>
+              (match as_number v with Ok n => factorial_val release n | o => cast_fail o end, c1)
+          | (o, c1) => (o, c1)
+          end
+      | ESpread a =>
+          match evalE c a with
+          | (Ok v, c1) => (spread_val v, c1)
+          | (o, c1) => (o, c1)
+          end
+      end.
+  End Expr.
+
   (* FunctionDef::call once the depth guard has passed.
      [ev]  = evaluate_ast at call_depth+1 (lambda bodies)
      [cb]  = FunctionDef::call at call_depth+2 (callbacks of a built-in)                 *)
@@ -176,226 +401,32 @@ Section Eval.
     : outcome value * store :=
     if check_arity f (Datatypes.length args) then (ErrDepth, st) else (Err, st).
 
-  Fixpoint ED (d : nat)
-    : (cfg -> expr -> result) * (frames -> callback) :=
-    let apply : frames -> callback :=
-      fun fr this f args st =>
-        if negb (check_arity f (Datatypes.length args)) then (Err, st) else
-        match d with
-        | O => (ErrDepth, st)
-        | S d' =>
-            let cb : callback :=
-              match d' with
-              | O => fun _ f a s => call_too_deep f a s
-              | S d'' => snd (ED d'') fr
-              end in
-            call_passed (fst (ED d')) cb fr this f args st
-        end in
-    let evalE :=
-      fix evalE (c : cfg) (e : expr) {struct e} : result :=
-        let evalL :=
-          fix evalL (c : cfg) (l : list expr) {struct l} : outcome (list value) * cfg :=
-            match l with
-            | [] => (Ok [], c)
-            | x :: r =>
-                match evalE c x with
-                | (Ok v, c1) =>
-                    match evalL c1 r with
-                    | (Ok vs, c2) => (Ok (v :: vs), c2)
-                    | (o, c2) => (o, c2)
-                    end
-                | (o, c1) => (cast_fail o, c1)
-                end
-            end in
-        match e with
-        | ENum x => (Ok (VNum x), c)
-        | EStr s => (Ok (VStr s), c)
-        | EBool b => (Ok (VBool b), c)
-        | ENull => (Ok VNull, c)
-        | EId x =>
-            if String.eqb x "infinity" || String.eqb x "inf" then (Ok (VNum npinf), c)
-            else if String.eqb x "constants" then
-              (Ok (VRec constants_record), c)
-            else (of_option (lookup (snd c) x), c)
-        | EInRef field =>
-            (match lookup (snd c) "inputs" with
-             | None => Err
-             | Some (VRec r) => Ok (match rec_get r field with Some v => v | None => VNull end)
-             | Some _ => Err
-             end, c)
-        | EBuiltin b => (Ok (VBuiltin b), c)
-        | EList items =>
-            let r :=
-              (fix go (c : cfg) (l : list (commented expr)) {struct l}
-                 : outcome (list value) * cfg :=
-                 match l with
-                 | [] => (Ok [], c)
-                 | Cm _ x _ :: r =>
-                     match evalE c x with
-                     | (Ok v, c1) =>
-                         match go c1 r with
-                         | (Ok vs, c2) => (Ok (v :: vs), c2)
-                         | (o, c2) => (o, c2)
-                         end
-                     | (o, c1) => (cast_fail o, c1)
-                     end
-                 end) c items in
-            (omap (fun vs => VList (flatten_spreads vs)) (fst r), snd r)
-        | ERec entries =>
-            (fix go (c : cfg) (acc : list (string * value)) (l : list (commented rentry))
-               {struct l} : result :=
-               match l with
-               | [] => (Ok (VRec acc), c)
-               | Cm _ (REntry k v) _ :: r =>
-                   match k with
-                   | KStatic key =>
-                       match evalE c v with
-                       | (Ok x, c1) => go c1 (rec_insert acc key x) r
-                       | (o, c1) => (o, c1)
-                       end
-                   | KDyn ke =>
-                       match evalE c ke with
-                       | (Ok kv, c1) =>
-                           match as_string kv with
-                           | Ok key =>
-                               match evalE c1 v with
-                               | (Ok x, c2) => go c2 (rec_insert acc key x) r
-                               | (o, c2) => (o, c2)
-                               end
-                           | o => (cast_fail o, c1)
-                           end
-                       | (o, c1) => (o, c1)
-                       end
-                   | KShort x =>
-                       match lookup (snd c) x with
-                       | Some x' => go c (rec_insert acc x x') r
-                       | None => (Err, c)
-                       end
-                   | KSpread se =>
-                       match evalE c se with
-                       | (Ok sv, c1) => go c1 (rec_insert_all acc (record_spread_entries sv)) r
-                       | (o, c1) => (o, c1)
-                       end
-                   end
-               end) c [] entries
-        | ELam args body =>
-            let vars := free_vars body (map arg_name args) in
-            let scope := capture (snd c) vars [] in
-            let '(v, st') := fresh_lambda (fst c) args body scope in
-            (Ok v, (st', snd c))
-        | EAssign x ve =>
-            if is_builtin_name x then (Err, c)
-            else if mem x assign_keywords then (Err, c)
-            else if contains (snd c) x then (Err, c)
-            else
-              match evalE c ve with
-              | (Ok v, (st1, fr1)) =>
-                  match insert_head fr1 x v with
-                  | Some fr2 => (Ok v, (name_if_lambda st1 v x, fr2))
-                  | None => (Panic, (name_if_lambda st1 v x, fr1))
-                  end
-              | (o, c1) => (o, c1)
-              end
-        | EOutput inner => evalE c inner
-        | ECond ce te fe =>
-            match evalE c ce with
-            | (Ok cv, c1) =>
-                match as_bool cv with
-                | Ok true => evalE c1 te
-                | Ok false => evalE c1 fe
-                | o => (cast_fail o, c1)
-                end
-            | (o, c1) => (o, c1)
-            end
-        | EDo stmts (Cm _ ret _) =>
-            (* evaluate_do_block_expr: a direct Assignment statement may shadow *)
-            let outer := snd c in
-            let finish := fun (r : result) => (fst r, (fst (snd r), outer)) in
-            finish (
-              (fix go (c : cfg) (l : list (commented expr)) {struct l} : result :=
-                 let step := fun (c : cfg) (s : expr) =>
-                   match s with
-                   | EAssign x ve =>
-                       if mem x do_assign_keywords then (Err, c)
-                       else
-                         match evalE c ve with
-                         | (Ok v, (st1, fr1)) =>
-                             match insert_head fr1 x v with
-                             | Some fr2 => (Ok v, (name_if_lambda st1 v x, fr2))
-                             | None => (Panic, (name_if_lambda st1 v x, fr1))
-                             end
-                         | (o, c1) => (o, c1)
-                         end
-                   | _ => evalE c s
-                   end in
-                 match l with
-                 | [] => step c ret
-                 | Cm _ s _ :: r =>
-                     match step c s with
-                     | (Ok _, c1) => go c1 r
-                     | (o, c1) => (o, c1)
-                     end
-                 end) (fst c, (FOwned, []) :: snd c) stmts)
-        | ECall fe args =>
-            match evalE c fe with
-            | (Ok fv, c1) =>
-                match evalL c1 args with
-                | (Ok raw, (st2, fr2)) =>
-                    let argv := flatten_spreads raw in
-                    if negb (is_function fv) then (Err, (st2, fr2))
-                    else let '(r, st3) := apply fr2 fv fv argv st2 in (r, (st3, fr2))
-                | (o, c2) => (cast_fail o, c2)
-                end
-            | (o, c1) => (o, c1)
-            end
-        | EAccess ae ie =>
-            match evalE c ae with
-            | (Ok v, c1) =>
-                match evalE c1 ie with
-                | (Ok i, c2) => (access_val v i, c2)
-                | (o, c2) => (o, c2)
-                end
-            | (o, c1) => (o, c1)
-            end
-        | EDot ae field =>
-            match evalE c ae with
-            | (Ok v, c1) => (dot_val v field, c1)
-            | (o, c1) => (o, c1)
-            end
-        | EBin op l r =>
-            match evalE c l with
-            | (Ok lv, c1) =>
-                match evalE c1 r with
-                | (Ok rv, (st2, fr2)) =>
-                    let '(res, st3) := binop_impl (apply fr2) op lv rv st2 in (res, (st3, fr2))
-                | (o, c2) => (o, c2)
-                end
-            | (o, c1) => (o, c1)
-            end
-        | EUn op a =>
-            match evalE c a with
-            | (Ok v, c1) =>
-                (match op with
-                 | Negate => omap (fun x => VNum (nneg x)) (as_number v)
-                 | Not | Invert => omap (fun b => VBool (negb b)) (as_bool v)
-                 end, c1)
-            | (o, c1) => (o, c1)
-            end
-        | EFact a =>
-            match evalE c a with
-            | (Ok v, c1) =>
-                (match as_number v with Ok n => factorial_val release n | o => cast_fail o end, c1)
-            | (o, c1) => (o, c1)
-            end
-        | ESpread a =>
-            match evalE c a with
-            | (Ok v, c1) => (spread_val v, c1)
-            | (o, c1) => (o, c1)
-            end
-        end in
-    (evalE, apply).
+  (* FunctionDef::call at call_depth = LIMIT - d, given itself two levels deeper ([cb]) and
+     evaluate_ast one level deeper ([ev]); None = that level is past the guard *)
+  Definition apply_at (lower : option ((cfg -> expr -> result) * callback))
+             (fr : frames) : callback :=
+    fun this f args st =>
+      if negb (check_arity f (Datatypes.length args)) then (Err, st) else
+      match lower with
+      | None => (ErrDepth, st)
+      | Some (ev, cb) => call_passed ev cb fr this f args st
+      end.
 
-  Definition evalD (d : nat) : cfg -> expr -> result := fst (ED d).
-  Definition applyD (d : nat) : frames -> callback := snd (ED d).
+  (* [AD d] = FunctionDef::call with d further nested calls admitted by the guard *)
+  Fixpoint AD (d : nat) : frames -> callback :=
+    fun fr =>
+      apply_at
+        (match d with
+         | O => None
+         | S d' =>
+             Some (evalE (AD d'),
+                   match d' with
+                   | O => fun _ f a s => call_too_deep f a s
+                   | S d'' => AD d'' fr
+                   end)
+         end) fr.
+
+  Definition applyD (d : nat) : frames -> callback := AD d.
+  Definition evalD (d : nat) : cfg -> expr -> result := evalE (AD d).
   Definition eval_top : cfg -> expr -> result := evalD LIMIT.
 End Eval.
